@@ -1,12 +1,14 @@
 #!/bin/bash
-# tools/allthorough.sh <seed> [outdir]: every registered thorough command at one VERIF_SEED, one after the other
-seed=${1:-1}; out=${2:-/tmp/allthorough-$seed}; mkdir -p $out; cd /verif
+# tools/allthorough.sh <seed> [outdir] [ids...]: every registered thorough command (or only those of the given
+# property ids) at one VERIF_SEED, one after the other
+seed=${1:-1}; out=${2:-/tmp/allthorough-$seed}; shift; shift; only=" $* "; mkdir -p $out; cd /verif
 python3 - <<PY > $out/cmds.txt
 import json
 for c in json.load(open('/verif/MANIFEST.json'))['checks']:
     print(c['property_id'], c['thorough_cmd'])
 PY
 while read id cmd; do
+  if [ "$only" != "  " ] && [[ "$only" != *" $id "* ]]; then continue; fi
   s=$(date +%s)
   VERIF_SEED=$seed VERIF_TIER=thorough $cmd > $out/$id.txt 2>&1
   echo "$id exit=$? $(( $(date +%s) - s ))s $(grep -c '^VIOLATION' $out/$id.txt) viol | $(tail -1 $out/$id.txt | cut -c1-130)" >> $out/summary.txt
